@@ -3,6 +3,7 @@ import CssVerif.Lemmas.CodecChunk
 import CssVerif.Lemmas.CodecInc
 import CssVerif.Lemmas.CodecEnc
 import CssVerif.Lemmas.CodecEncInner
+import CssVerif.Lemmas.CodecStream
 /-!
 The incremental CSS decoder raises for some chunking iff one-shot decode raises (inner codecs of the model).
 -/
@@ -287,5 +288,123 @@ theorem erunAllE_eq (I : InnerEnc) (given : Option Name) (cs : List (List Nat)) 
     cases encErrAt (finalE given cs.flatten) (finalT given cs.flatten) with
     | true => simp
     | false => simp [hout]
+
+/-! ## stream reader with the exception -/
+
+theorem rerr_mono (given : Option Name) (force : Bool) (a x : List Nat) (h : rerr given force a = true) :
+    rerr given force (a ++ x) = true := by
+  unfold rerr at *
+  cases hc : choose given force a with
+  | none => simp [hc] at h
+  | some E =>
+    simp only [hc] at h
+    simp only [choose_stable given force a x E hc]
+    exact errAt_mono E a x false h
+
+/-- a turn of the `read()` loop raises iff the inner decoder of the chosen encoding raises on the data so far -/
+theorem rstepE_none (I : Inner) (given : Option Name) (force : Bool) (a em x : List Nat) (s : RSt)
+    (h : RInv I given force a em s) :
+    (rstepE I force s x = none ↔ rerr given force (a ++ x) = true) ∧
+    (∀ r, rstepE I force s x = some r → r = rstep I force s x) := by
+  cases s with
+  | waiting enc bb =>
+    obtain ⟨rfl, _, hok, _⟩ := h
+    simp only [rstepE, rerr, choose_ok given force bb x enc hok]
+    cases hc : choose given force (bb ++ x) with
+    | none => simp
+    | some E =>
+      cases he : errAt E (bb ++ x) false <;> simp
+  | reading E c =>
+    obtain ⟨rfl, hE, _⟩ := h
+    simp only [rstepE, rerr, choose_stable given force c x E hE]
+    cases he : errAt E (c ++ x) false <;> simp
+
+theorem rrunChunksE_spec (I : Inner) (given : Option Name) (force : Bool) (cs : List (List Nat)) :
+    ∀ (a em : List Nat) (s : RSt), RInv I given force a em s →
+      (cs ≠ [] → (rrunChunksE I force s cs = none ↔ rerr given force (a ++ cs.flatten) = true)) ∧
+      (∀ r, rrunChunksE I force s cs = some r → r = rrunChunks I force s cs) := by
+  induction cs with
+  | nil =>
+    intro a em s _
+    exact ⟨fun h => absurd rfl h, fun r h => by simp [rrunChunksE] at h; simp [rrunChunks, h]⟩
+  | cons c cs ih =>
+    intro a em s hinv
+    obtain ⟨hs1, hs2⟩ := rstepE_none I given force a em c s hinv
+    have hinv1 := rstep_inv I given force a em c s hinv
+    obtain ⟨ih1, ih2⟩ := ih _ _ _ hinv1
+    have hfl : a ++ (c :: cs).flatten = (a ++ c) ++ cs.flatten := by simp
+    constructor
+    · intro _
+      rw [hfl]
+      cases hst : rstepE I force s c with
+      | none =>
+        simp only [rrunChunksE, hst]
+        exact ⟨fun _ => rerr_mono given force (a ++ c) cs.flatten (hs1.mp hst), fun _ => trivial⟩
+      | some r =>
+        have hr := hs2 r hst
+        subst hr
+        have hne : ¬ rerr given force (a ++ c) = true := fun e => by
+          have := hs1.mpr e; rw [hst] at this; cases this
+        simp only [rrunChunksE, hst]
+        by_cases hcs : cs = []
+        · subst hcs
+          simp only [rrunChunksE, List.flatten_nil, List.append_nil]
+          exact ⟨fun h => (by cases h), fun h => absurd h hne⟩
+        · have := ih1 hcs
+          cases hrest : rrunChunksE I force (rstep I force s c).1 cs with
+          | none => exact ⟨fun _ => this.mp hrest, fun _ => rfl⟩
+          | some r' =>
+            constructor
+            · intro h; simp at h
+            · intro h
+              have := this.mpr h
+              rw [hrest] at this; cases this
+    · intro r h
+      simp only [rrunChunksE] at h
+      cases hst : rstepE I force s c with
+      | none => simp [hst] at h
+      | some r1 =>
+        have hr := hs2 r1 hst
+        subst hr
+        simp only [hst] at h
+        cases hrest : rrunChunksE I force (rstep I force s c).1 cs with
+        | none => simp [hrest] at h
+        | some r' =>
+          simp only [hrest, Option.some.injEq] at h
+          have := ih2 r' hrest
+          subst h
+          simp [rrunChunks, ← this]
+
+theorem errAt_nil (E : Name) : errAt E [] false = false := by
+  unfold errAt
+  cases lookupName E with
+  | none => rfl
+  | some c => cases c <;> rfl
+
+/-- `read()` of the CSS stream reader raises iff the inner decoder of the encoding it settles on raises on the whole
+data read (as non-final data); otherwise it returns `readAll` -/
+theorem readAllE_eq (I : Inner) (given : Option Name) (force : Bool) (cs : List (List Nat)) :
+    readAllE I given force cs = if rerr given force cs.flatten then none else some (readAll I given force cs) := by
+  unfold readAllE readAll
+  obtain ⟨h1, h2⟩ := rrunChunksE_spec I given force cs [] [] _ (rinv_init I given force)
+  simp only [List.nil_append] at h1
+  by_cases hcs : cs = []
+  · subst hcs
+    have : rerr given force [] = false := by
+      unfold rerr
+      cases choose given force [] with
+      | none => rfl
+      | some E => exact errAt_nil E
+    simp [rrunChunksE, rrunChunks, this]
+  · have h1 := h1 hcs
+    cases hr : rrunChunksE I force (.waiting given []) cs with
+    | none => simp [h1.mp hr]
+    | some r =>
+      have := h2 r hr
+      have hne : rerr given force cs.flatten = false := by
+        cases hx : rerr given force cs.flatten with
+        | false => rfl
+        | true => have := h1.mpr hx; rw [hr] at this; cases this
+      simp [hne, this]
 
 end CssVerif.Codec
